@@ -85,6 +85,12 @@ type RWMutex struct {
 	sw, sr int32
 }
 
+// Held reports how often the mutex is held through the scheduler right now
+// (a struct copy of a held mutex carries these counts along).
+func (m *RWMutex) Held() (writers, readers int32) {
+	return atomic.LoadInt32(&m.sw), atomic.LoadInt32(&m.sr)
+}
+
 func (m *RWMutex) Lock() {
 	if s := S; s != nil {
 		s.Lock(m, true)
